@@ -22,7 +22,8 @@ def gen_action(rng, nprocs, nnames, feat, prefer_dst=None):
         dst = prefer_dst if (prefer_dst is not None and rng.random() < 0.65) else rng.randrange(nprocs)
         return "S %d %s" % (dst, gen_msg(rng))
     if r < 0.60:
-        return "L %s" % gen_msg(rng)
+        # local messages of both types and of the whole payload alphabet (equal data under different types occur)
+        return "L %s" % gen_msg(rng, small=rng.random() < 0.5)
     if r < 0.90 and feat["timers"]:
         # override of a pending timer leaves the old event in the store (known finding F10): optional
         once = 1 if (not feat["override"] or rng.random() < 0.5) else 0
